@@ -79,7 +79,14 @@ func (s *MySQLReplicateStore) Get(ctx context.Context, key string, withPrefix bo
 	var sqlStr string
 	var sqlArgs []any
 	if withPrefix {
-		sqlStr = fmt.Sprintf("SELECT task_msg_value FROM task_msg WHERE task_msg_key LIKE '%s%%'", taskMsgKey)
+		prefix := taskMsgKey
+		if key == "" {
+			// everything under the root path: the prefix ends at the path boundary, so that a root
+			// path which merely starts with this one is not selected
+			prefix += "/"
+		}
+		// the wildcard characters of the root path and the key match themselves
+		sqlStr = fmt.Sprintf("SELECT task_msg_value FROM task_msg WHERE task_msg_key LIKE '%s%%' ESCAPE '|'", escapeLikePattern(prefix))
 	} else {
 		sqlStr = "SELECT task_msg_value FROM task_msg WHERE task_msg_key = ?"
 		sqlArgs = append(sqlArgs, taskMsgKey)
